@@ -4,6 +4,7 @@ import Thanos.Model.Labels
 import Thanos.Model.Frames
 import Thanos.Model.StoreSpec
 import Thanos.Model.Limiter
+import Thanos.Model.Partition
 /-
   Line-protocol driver of the `stores` family (C07 C08 C09 C10 C15).
   One request per line, one answer per line; every line is self-contained.
@@ -25,6 +26,10 @@ import Thanos.Model.Limiter
     lim.seq <limit> <n,n,…>        -> `<1|0,…> failed=<0|1>`
     st.limits bkt+<cfg> <blocks> <mint> <maxt> <matchers> <without> <skip>   (cfg carries sl<n> and cl<n>)
                                    -> `ok s=<series> c=<chunks>` | `exhausted`
+
+  C10
+    st.hist bkt+<cfg> <blocks> <req>!<req>!…   req = mint~maxt~matchers~without~skip  -> answers joined by ` | `
+    part.gap <maxGap> <start:end,…>            -> `start:end:i:j,…`
 -/
 open Thanos Thanos.Parse
 
@@ -197,6 +202,21 @@ def handle : List String → String
     | some m, some lsz, some csz =>
       joinWith "|" ((Frames.splitFrames m lsz (zipIdx csz)).map fun f => "+".intercalate (f.map fun c => toString c.1))
     | _, _, _ => "bad-op"
+  | ["st.hist", kind, blocks, reqs] =>
+    let answers := (splitChar '!' reqs).map fun rq =>
+      match splitChar '~' rq with
+      | [a, b, ms, w, sk] => handleSeries kind blocks a b ms w sk
+      | _ => "bad-op"
+    if answers.contains "bad-op" then "bad-op" else " | ".intercalate answers
+  | ["part.gap", maxGap, rs] =>
+    let parseR (t : String) : Option (Nat × Nat) :=
+      match (splitChar ':' t).mapM parseNat? with
+      | some [a, b] => some (a, b)
+      | _ => none
+    match parseNat? maxGap, (listOf ',' rs).mapM parseR with
+    | some g, some rs =>
+      joinWith "," ((Partition.partition g rs).map fun p => s!"{p.start}:{p.stop}:{p.i}:{p.j}")
+    | _, _ => "bad-op"
   | ["lim.seq", limit, ns] =>
     match parseNat? limit, parseNats? ',' ns with
     | some limit, some ns =>
